@@ -23,6 +23,21 @@ def gen_layer_case(rng):
     nch = 0
     established = False
     n = rng.randrange(3, 40)
+    if rng.random() < 0.12:
+        # two negotiated channels, one with a packet lifetime (or a retransmission limit) and a fully reliable one, open
+        # at once when the association is established; a message on each is queued and ONE flush hands both to _send:
+        # the reliability settings of the first must not rub off on the second
+        first = rng.choice([[[], [500]], [[], [1]], [[0], []], [[3], []]])
+        order = rng.sample([0, 1], 2)
+        specs = {0: first, 1: [[], []]}
+        for j in order:
+            ins.append([0, 1, [2 + 2 * j], 1, specs[j][0], specs[j][1], [99 + j], []])
+        ins.append([6])
+        established = True
+        nch = 2
+        for j in (0, 1):
+            ins.append([1, j, 53, [1, 2, 3]])
+        ins.append([4, [0, 0, 0]])
     for _ in range(n):
         k = rng.random()
         oracle = [1 if rng.random() < 0.15 else 0] + [1 if rng.random() < 0.3 else 0 for _ in range(rng.randrange(0, 4))]
